@@ -297,7 +297,22 @@ def _make_funcs(fid, s, ledger):
     return ns['f'], ns['twin']
 
 
+def _snap(v):
+    """an immutable snapshot of an argument: f must not hand the caller's own containers back inside its result (a memoised
+    result would then change whenever the caller edits its argument object, which is nobody's fault)"""
+    if isinstance(v, list):
+        return ('L',) + tuple(_snap(x) for x in v)
+    if isinstance(v, tuple):
+        return ('T',) + tuple(_snap(x) for x in v)
+    if isinstance(v, dict):
+        return ('D',) + tuple((k, _snap(x)) for k, x in sorted(v.items(), key=lambda kv: str(kv[0])))
+    return v
+
+
 def _ret(s, fid, named, varargs, kwitems):
+    named = tuple(_snap(v) for v in named)
+    varargs = tuple(_snap(v) for v in varargs)
+    kwitems = tuple((k, _snap(v)) for k, v in kwitems)
     mode = s.get('ret', 'canon')
     if mode != 'canon':
         vals = list(named) + list(varargs)
